@@ -283,7 +283,7 @@ Section Dispatch.
     destruct (check_params (Params AntiKt R eta pt ch)) as [[w p]|e'] eqn:CP; [|reflexivity].
     unfold self_after.
     cbn [hadron_data_ jet_R_ jet_eta_range_ jet_pT_range_ fs_open String.eqb Ascii.eqb Bool.eqb].
-    rewrite HA, HB. destruct (b1 || b2); rewrite HJ; cbv beta iota;
+    rewrite HA, HB. try rewrite (orb_comm b2 b1). destruct (b1 || b2); rewrite HJ; cbv beta iota;
       (rewrite xloopF_raises with (e := e) by (intros f s [i ev]; reflexivity));
       destruct evs; reflexivity.
   Qed.
@@ -303,7 +303,7 @@ Section Dispatch.
     destruct (check_params (Params AntiKt R eta pt ch)) as [[w p]|e'] eqn:CP; [|reflexivity].
     unfold self_after.
     cbn [hadron_data_ jet_R_ jet_eta_range_ jet_pT_range_ fs_open String.eqb Ascii.eqb Bool.eqb].
-    rewrite HA, HB.
+    rewrite HA, HB. try rewrite (orb_comm b2 b1).
     assert (CS : forall l, fjx_ClusterSequence l d = XErr FastJetError) by (intros l; unfold fjx_ClusterSequence; rewrite N; reflexivity).
     assert (DS : fjx_description d = XOk tt \/ fjx_description d = XErr FastJetError)
       by (unfold fjx_description; destruct (fj_native (xjd_alg d) || (xjd_alg d =? fj_undefined_jet_algorithm)%Z); auto).
@@ -313,18 +313,19 @@ Section Dispatch.
       destruct evs; reflexivity.
   Qed.
 
-  Lemma perform_x_native : forall self (fs : file) evs R eta pt ch a b1 b2 d,
+  Lemma perform_x_native : forall self (fs : file) evs R eta pt ch a b1 b2 d (cl : alg -> Q -> list vec4 -> list vec4),
     alg_is a fj_ee_genkt_algorithm = b1 -> alg_is a fj_genkt_algorithm = b2 ->
     fjx_JetDefinition a R (if b1 || b2 then Some (-1 # 1) else None) = XOk d ->
     fj_native (xjd_alg d) = true ->
+    (forall l, cl AntiKt R l = o_clusterx d l) ->
     (forall w p ev jet holes,
        check_params (Params AntiKt R eta pt ch) = Ok (w, p) -> In ev evs ->
-       In jet (select (fun _ _ l => o_clusterx d l) o_eta (Params AntiKt R eta pt ch) w p ev) ->
+       In jet (select cl o_eta (Params AntiKt R eta pt ch) w p ev) ->
        fill dR R jet Negative false ev = Ok holes ->
        perp_at o_perp (jet_hole_subtraction jet holes)) ->
     genx_perform self fs evs R eta pt ch a
     = let pa := Params AntiKt R eta pt ch in
-      let r := perform (fun _ _ l => o_clusterx d l) o_perp o_eta o_phi dR pa fs evs in
+      let r := perform cl o_perp o_eta o_phi dR pa fs evs in
       (fst r, match snd r with
               | Some e => XErr (XPy (exn_of e))
               | None => match check_params pa with
@@ -333,18 +334,17 @@ Section Dispatch.
                         end
               end).
   Proof.
-    intros self fs evs R eta pt ch a b1 b2 d HA HB HJ N P.
+    intros self fs evs R eta pt ch a b1 b2 d cl HA HB HJ N HCL P.
     unfold genx_perform_jet_finding. rewrite (source_params self evs AntiKt R eta pt ch). unfold perform. cbv zeta.
     destruct (check_params (Params AntiKt R eta pt ch)) as [[w p]|e'] eqn:CP; [|reflexivity].
     pose proof (bound_ok_params _ _ _ CP) as HBD.
     pose proof (fun ev jet holes => P w p ev jet holes eq_refl) as P'. clear P.
     unfold self_after.
     cbn [hadron_data_ jet_R_ jet_eta_range_ jet_pT_range_ fs_open String.eqb Ascii.eqb Bool.eqb].
-    rewrite HA, HB.
+    rewrite HA, HB. try rewrite (orb_comm b2 b1).
     assert (CS : forall l, fjx_ClusterSequence l d = XOk (XClusterSequence l d)) by (intros l; unfold fjx_ClusterSequence; rewrite N; reflexivity).
     assert (DS : fjx_description d = XOk tt) by (unfold fjx_description; rewrite N; reflexivity).
     set (pa := Params AntiKt R eta pt ch).
-    set (cl := fun (_ : alg) (_ : Q) (l : list vec4) => o_clusterx d l) in *.
     assert (BODY : forall body,
       (forall f pre ev post, evs = pre ++ ev :: post ->
          body f tt (zlen pre, ev)
@@ -385,11 +385,11 @@ Section Dispatch.
                (fj_sorted_by_pt (fjx_inclusive_jets o_clusterx
                   (XClusterSequence (gen_create_fastjet_PseudoJets ev) d) (fst p))))
       with (select cl o_eta pa w p ev)
-      by (unfold select, fj_select, fj_sorted_by_pt, fjx_inclusive_jets, cl;
-          cbn [sel_lo sel_hi xcs_in xcs_def]; rewrite source_pseudojets;
+      by (unfold select, fj_select, fj_sorted_by_pt, fjx_inclusive_jets;
+          cbn [sel_lo sel_hi xcs_in xcs_def a_alg a_R pa]; rewrite source_pseudojets, HCL;
           rewrite <- surjective_pairing; reflexivity).
     all: set (SEL := select cl o_eta pa w p ev) in *.
-    all: match goal with |- (let (_, _) := xloopF ?b SEL _ tt in _) = _ => set (jb := b) end.
+    all: match goal with |- (let (_, _) := xloopF ?b _ _ tt in _) = _ => set (jb := b) end.
     all: assert (S2 : forall f jet, In jet SEL -> jb f tt jet
                  = match fill dR R jet Negative false ev with
                    | Err e => (f, XErr (XPy (exn_of e)))
@@ -402,14 +402,14 @@ Section Dispatch.
                    end)
       by (intros f0 jet INj; unfold jb;
       change "negative"%string with (sel_str Negative); change "positive"%string with (sel_str Positive);
-      match goal with |- context [gen_fill_associated_particles _ _ _ ?sf jet _ (sel_str Negative) _] =>
+      match goal with |- context [gen_fill_associated_particles _ _ _ ?sf _ _ (sel_str Negative) _] =>
         rewrite (source_fill o_eta o_dphi o_sqrt sf evs R jet (zlen pre) ev Negative false eq_refl eq_refl RG IX) end;
       destruct (fill dR R jet Negative false ev) as [holes|e] eqn:FN; cbn [res_of]; [|reflexivity];
-      match goal with |- context [gen_fill_associated_particles _ _ _ ?sf jet _ (sel_str Positive) _] =>
+      match goal with |- context [gen_fill_associated_particles _ _ _ ?sf _ _ (sel_str Positive) _] =>
         rewrite (source_fill o_eta o_dphi o_sqrt sf evs R jet (zlen pre) ev Positive ch eq_refl eq_refl RG IX) end;
       destruct (fill dR R jet Positive ch ev) as [assoc|e]; cbn [res_of]; [|reflexivity];
       rewrite source_hole_subtraction; unfold gen_default_write_jet_output_new_file;
-      match goal with |- context [gen_write_jet_output _ _ _ ?sf f0 _ _ _ _] =>
+      match goal with |- context [gen_write_jet_output _ _ _ ?sf _ _ _ _ _] =>
         rewrite (source_write o_perp o_eta o_phi sf f0 p _ assoc (zlen pre) false eq_refl (P' ev jet holes INev INj FN) HBD) end;
       reflexivity).
     all: clearbody jb.
@@ -425,4 +425,266 @@ Section Dispatch.
            apply IH; intros x Hx; apply INC; right; exact Hx]).
     all: apply J; apply incl_refl.
   Qed.
+
+  (* what the two comparisons and the fj.JetDefinition call of the method give, for every argument *)
+  Lemma dispatch_jetdef : forall a R,
+    let x := if alg_is a fj_ee_genkt_algorithm || alg_is a fj_genkt_algorithm then Some (-1 # 1) else None in
+    match dispatch_of a with
+    | DRaise e => fjx_JetDefinition a R x = XErr e
+                  \/ (e = FastJetError /\ exists d, fjx_JetDefinition a R x = XOk d /\ fj_native (xjd_alg d) = false)
+    | DCluster n x' => fjx_JetDefinition a R x = XOk (XJetDefinition n R x') /\ fj_native n = true
+    end.
+  Proof.
+    intros [n|] R; [|left; reflexivity].
+    unfold dispatch_of, alg_is, fjx_JetDefinition, c_int, fj_n_parameters, fj_native, existsb,
+      fj_kt_algorithm, fj_cambridge_algorithm, fj_antikt_algorithm, fj_genkt_algorithm, fj_cambridge_for_passive_algorithm,
+      fj_ee_kt_algorithm, fj_ee_genkt_algorithm.
+    cbv zeta.
+    destruct (Z.eqb_spec n 53) as [->|N53]; [split; reflexivity|].
+    destruct (Z.eqb_spec n 3) as [->|N3]; [split; reflexivity|].
+    destruct (Z.eqb_spec n 0) as [->|N0]; [split; reflexivity|].
+    destruct (Z.eqb_spec n 1) as [->|N1]; [split; reflexivity|].
+    destruct (Z.eqb_spec n 2) as [->|N2]; [split; reflexivity|].
+    destruct (Z.eqb_spec n 11) as [->|N11]; [split; reflexivity|].
+    destruct (Z.eqb_spec n 50) as [->|N50]; [left; reflexivity|].
+    cbn [orb negb andb].
+    destruct (Z.ltb_spec n (-2147483648)) as [L1|L1], (Z.ltb_spec 2147483647 n) as [L2|L2],
+             (Z.leb_spec (-2147483648) n) as [L3|L3], (Z.leb_spec n 2147483647) as [L4|L4];
+      try lia; cbn [orb negb andb]; try (left; reflexivity).
+    right. split; [reflexivity|]. eexists. split; [reflexivity|]. cbn [xjd_alg existsb orb].
+    repeat match goal with |- context [(n =? ?k)%Z] => destruct (Z.eqb_spec n k); [lia|] end. reflexivity.
+  Qed.
+
+  (* ---- perform_jet_finding, every argument ---------------------------------------------------------------------- *)
+  Theorem source_perform_dispatch : forall self (fs : file) evs R eta pt ch a,
+    a <> AInt 99 ->
+    (forall n x w p ev jet holes,
+       dispatch_of a = DCluster n x ->
+       check_params (Params AntiKt R eta pt ch) = Ok (w, p) -> In ev evs ->
+       In jet (select (cluster_of o_clusterx n x) o_eta (Params AntiKt R eta pt ch) w p ev) ->
+       fill dR R jet Negative false ev = Ok holes ->
+       perp_at o_perp (jet_hole_subtraction jet holes)) ->
+    genx_perform self fs evs R eta pt ch a
+    = let pa := Params AntiKt R eta pt ch in
+      match dispatch_of a with
+      | DRaise e =>
+        match check_params pa with
+        | Err e' => (fs, XErr (XPy (exn_of e')))
+        | Ok (w, p) => (Some [], match evs with [] => XOk (self_after self evs R w p, tt) | _ :: _ => XErr e end)
+        end
+      | DCluster n x =>
+        let r := perform (cluster_of o_clusterx n x) o_perp o_eta o_phi dR pa fs evs in
+        (fst r, match snd r with
+                | Some e => XErr (XPy (exn_of e))
+                | None => match check_params pa with
+                          | Ok (w, p) => XOk (self_after self evs R w p, tt)
+                          | Err e => XErr (XPy (exn_of e))
+                          end
+                end)
+      end.
+  Proof.
+    intros self fs evs R eta pt ch a _ P. cbv zeta.
+    pose proof (dispatch_jetdef a R) as D. cbv zeta in D.
+    destruct (dispatch_of a) as [e|n x].
+    - destruct D as [HJ|(-> & d & HJ & N)].
+      + exact (perform_x_jetdef_raises self fs evs R eta pt ch a _ _ e eq_refl eq_refl HJ).
+      + exact (perform_x_not_native self fs evs R eta pt ch a _ _ d eq_refl eq_refl HJ N).
+    - destruct D as [HJ N].
+      exact (perform_x_native self fs evs R eta pt ch a _ _ _ (cluster_of o_clusterx n x) eq_refl eq_refl HJ N
+               (fun l => eq_refl) (fun w p ev jet holes => P n x w p ev jet holes eq_refl)).
+  Qed.
 End Dispatch.
+
+(* ---- the table: fastjet's named algorithms, every other value, the default, and Model/JetsRt.v's five ----------------- *)
+Theorem source_dispatch_table :
+  genx_default_perform_jet_finding_jet_algorithm = AInt 2
+  /\ genx_default_perform_jet_finding_assoc_only_charged = true
+  /\ dispatch_of (AInt fj_kt_algorithm) = DCluster 0 None
+  /\ dispatch_of (AInt fj_cambridge_algorithm) = DCluster 1 None
+  /\ dispatch_of (AInt fj_cambridge_aachen_algorithm) = DCluster 1 None
+  /\ dispatch_of (AInt fj_antikt_algorithm) = DCluster 2 None
+  /\ dispatch_of (AInt fj_genkt_algorithm) = DCluster 3 (Some (-1 # 1))
+  /\ dispatch_of (AInt fj_ee_genkt_algorithm) = DCluster 53 (Some (-1 # 1))
+  /\ dispatch_of (AInt fj_cambridge_for_passive_algorithm) = DCluster 11 None
+  /\ dispatch_of (AInt fj_ee_kt_algorithm) = DRaise FastJetError
+  /\ dispatch_of (AInt fj_genkt_for_passive_algorithm) = DRaise FastJetError
+  /\ dispatch_of (AInt fj_undefined_jet_algorithm) = DRaise FastJetError
+  /\ dispatch_of AOther = DRaise (XPy TypeError)
+  /\ (forall n, ~ In n [0; 1; 2; 3; 11; 53]%Z -> (-2147483648 <= n <= 2147483647)%Z -> dispatch_of (AInt n) = DRaise FastJetError)
+  /\ (forall n, (n < -2147483648 \/ 2147483647 < n)%Z -> dispatch_of (AInt n) = DRaise (XPy TypeError))
+  (* the algorithms of Model/JetsRt.v: the jet definition gen_jets.py's translation builds for them, by number *)
+  /\ (forall g R, exists x, dispatch_of (AInt (code_of g)) = DCluster (code_of g) x
+                          /\ x = (if galg_eqb g GEEGenKt || galg_eqb g GGenKt then Some (-1 # 1) else None)
+                          /\ XJetDefinition (code_of g) R x = xjetdef_of (JetDefinition g R x)).
+Proof.
+  repeat (split; [reflexivity|]). split; [|split].
+  - intros n NI [L H]. unfold dispatch_of.
+    destruct (Z.ltb_spec n (-2147483648)); [lia|]. destruct (Z.ltb_spec 2147483647 n); [lia|]. cbn [orb existsb].
+    repeat match goal with |- context [(n =? ?k)%Z] => destruct (Z.eqb_spec n k); [exfalso; apply NI; subst; cbn; tauto|] end.
+    reflexivity.
+  - intros n H. unfold dispatch_of.
+    destruct (Z.ltb_spec n (-2147483648)), (Z.ltb_spec 2147483647 n); try reflexivity. lia.
+  - intros g R. eexists. split; [|split; [reflexivity|]]; destruct g as [[| |]| |]; reflexivity.
+Qed.
+
+(* ---- the clustering function matters only at the call's algorithm and radius --------------------------------------------- *)
+Lemma perform_ext : forall (cl1 cl2 : alg -> Q -> list vec4 -> list vec4) o_perp o_eta o_phi dR al1 al2 R eta pt ch f evs,
+  (forall l, cl1 al1 R l = cl2 al2 R l) ->
+  perform cl1 o_perp o_eta o_phi dR (Params al1 R eta pt ch) f evs
+  = perform cl2 o_perp o_eta o_phi dR (Params al2 R eta pt ch) f evs.
+Proof.
+  intros cl1 cl2 o_perp o_eta o_phi dR al1 al2 R eta pt ch f evs H. unfold perform.
+  change (check_params (Params al1 R eta pt ch)) with (check_params (Params al2 R eta pt ch)).
+  destruct (check_params (Params al2 R eta pt ch)) as [[w p]|e]; [|reflexivity].
+  generalize (create_empty f). generalize 0%Z.
+  assert (J : forall hi ev i jets f0, jets_loop o_perp o_eta o_phi dR (Params al1 R eta pt ch) hi ev i jets f0
+                                   = jets_loop o_perp o_eta o_phi dR (Params al2 R eta pt ch) hi ev i jets f0).
+  { intros hi ev i. induction jets as [|jet t IH]; intros f0; [reflexivity|]. cbn [jets_loop a_R a_charged].
+    destruct (fill dR R jet Negative false ev); [|reflexivity]. destruct (fill dR R jet Positive ch ev); [|reflexivity]. apply IH. }
+  induction evs as [|ev t IH]; intros i f0; [reflexivity|]. cbn [events_loop].
+  replace (select cl1 o_eta (Params al1 R eta pt ch) w p ev) with (select cl2 o_eta (Params al2 R eta pt ch) w p ev)
+    by (unfold select; cbn [a_alg a_R]; rewrite H; reflexivity).
+  rewrite J. destruct (jets_loop o_perp o_eta o_phi dR (Params al2 R eta pt ch) (snd p) ev i _ f0) as [f' [e|]]; [reflexivity|]. apply IH.
+Qed.
+
+Lemma cluster_of_model : forall cluster al R l,
+  cluster_of (xcluster_of cluster) (code_of (GModel al)) None AntiKt R l = cluster al R l.
+Proof. intros cluster [| |] R l; reflexivity. Qed.
+
+(* ---- on the three algorithms of Model/Jets.v the two translations of perform_jet_finding agree --------------------------- *)
+(* (the wider oracle restricted to what Model/JetsRt.v's oracle knows; same hypothesis as C20_source_perform) *)
+Theorem source_perform_x_model : forall o_cluster o_perp o_eta o_phi o_dphi o_sqrt self (fs : file) evs al R eta pt ch,
+  (forall w p ev jet holes,
+     check_params (Params al R eta pt ch) = Ok (w, p) -> In ev evs ->
+     In jet (select o_cluster o_eta (Params al R eta pt ch) w p ev) ->
+     fill (dR_of o_eta o_dphi o_sqrt) R jet Negative false ev = Ok holes ->
+     perp_at o_perp (jet_hole_subtraction jet holes)) ->
+  genx_perform_jet_finding (xcluster_of o_cluster) o_perp o_eta o_phi o_dphi o_sqrt self fs evs R eta pt ch
+                           (AInt (code_of (GModel al)))
+  = xliftF (gen_perform_jet_finding o_cluster o_perp o_eta o_phi o_dphi o_sqrt self fs evs R eta pt ch (GModel al)).
+Proof.
+  intros o_cluster o_perp o_eta o_phi o_dphi o_sqrt self fs evs al R eta pt ch P.
+  rewrite (source_perform o_cluster o_perp o_eta o_phi o_dphi o_sqrt self fs evs al R eta pt ch P).
+  assert (D : dispatch_of (AInt (code_of (GModel al))) = DCluster (code_of (GModel al)) None) by (destruct al; reflexivity).
+  rewrite source_perform_dispatch.
+  - rewrite D. cbv zeta.
+    rewrite (perform_ext _ o_cluster o_perp o_eta o_phi (dR_of o_eta o_dphi o_sqrt) AntiKt al R eta pt ch fs evs
+               (cluster_of_model o_cluster al R)).
+    change (check_params (Params AntiKt R eta pt ch)) with (check_params (Params al R eta pt ch)).
+    unfold xliftF. cbn [fst snd].
+    destruct (snd (perform o_cluster o_perp o_eta o_phi (dR_of o_eta o_dphi o_sqrt) (Params al R eta pt ch) fs evs)); [reflexivity|].
+    destruct (check_params (Params al R eta pt ch)) as [[w p]|e]; reflexivity.
+  - destruct al; discriminate.
+  - intros n x w p ev jet holes Dn CP INev INj F. rewrite D in Dn. injection Dn as <- <-.
+    apply (P w p ev jet holes CP INev); [|exact F].
+    unfold select in *. cbn [a_alg a_R] in *. rewrite <- (cluster_of_model o_cluster al R (map pmom ev)). exact INj.
+Qed.
+
+(* ---- write, read back, get: the selected jets and, jet by jet, their associated particles -------------------------------- *)
+Lemma group_head : forall o_perp o_eta o_phi jo d,
+  hd d (jet_group o_perp o_eta o_phi jo) = jet_row o_perp o_eta o_phi (jo_mom jo) (jo_event jo).
+Proof. reflexivity. Qed.
+Lemma group_tail : forall o_perp o_eta o_phi jo,
+  tl (jet_group o_perp o_eta o_phi jo) = hadron_rows o_perp o_eta o_phi 1 (jo_assoc jo) (jo_event jo).
+Proof.
+  intros o_perp o_eta o_phi jo. change 1%Z with (Z.of_nat 1). rewrite hadron_rows_spec. reflexivity.
+Qed.
+
+(* reading any list of written jets back through the regenerated reader and getters *)
+Theorem source_read_back : forall o_perp o_eta o_phi (js : list jetout) self,
+  exists self',
+    gen_read_jet_data self (Some (lines_of o_perp o_eta o_phi js)) = (Some (lines_of o_perp o_eta o_phi js), POk (self', tt))
+    /\ gen_get_jets self' = POk (map (fun jo => jet_row o_perp o_eta o_phi (jo_mom jo) (jo_event jo)) js)
+    /\ gen_get_associated_particles self'
+       = POk (map (fun jo => hadron_rows o_perp o_eta o_phi 1 (jo_assoc jo) (jo_event jo)) js).
+Proof.
+  intros o_perp o_eta o_phi js self. eexists. rewrite source_read, read_written. split; [reflexivity|].
+  rewrite source_get_jets, source_get_associated. cbn [jet_data_ set_jet_data_].
+  destruct (get_jets_written o_perp o_eta o_phi js) as [G A]. rewrite G, A. cbn [res_of].
+  split; [f_equal; apply map_ext; intros jo; apply group_head | f_equal; apply map_ext; intros jo; apply group_tail].
+Qed.
+
+(* perform_jet_finding with one of the three algorithms of Model/Jets.v (gen_jets.py's translation), then read + get *)
+Theorem source_roundtrip : forall o_cluster o_perp o_eta o_phi o_dphi o_sqrt self (prior : file) evs al R eta pt ch,
+  let a := Params al R eta pt ch in
+  let dR := dR_of o_eta o_dphi o_sqrt in
+  let js := selected_jets o_cluster o_eta dR a evs in
+  valid a -> Forall (event_ok o_cluster o_eta a) evs ->
+  (forall w p ev jet holes,
+     check_params a = Ok (w, p) -> In ev evs -> In jet (select o_cluster o_eta a w p ev) ->
+     fill dR R jet Negative false ev = Ok holes -> perp_at o_perp (jet_hole_subtraction jet holes)) ->
+  exists self1,
+    gen_perform_jet_finding o_cluster o_perp o_eta o_phi o_dphi o_sqrt self prior evs R eta pt ch (GModel al)
+    = (Some (lines_of o_perp o_eta o_phi js), POk (self1, tt))
+    /\ forall self2, exists self3,
+         gen_read_jet_data self2 (Some (lines_of o_perp o_eta o_phi js)) = (Some (lines_of o_perp o_eta o_phi js), POk (self3, tt))
+         /\ gen_get_jets self3 = POk (map (fun jo => jet_row o_perp o_eta o_phi (jo_mom jo) (jo_event jo)) js)
+         /\ gen_get_associated_particles self3
+            = POk (map (fun jo => hadron_rows o_perp o_eta o_phi 1 (jo_assoc jo) (jo_event jo)) js).
+Proof.
+  intros o_cluster o_perp o_eta o_phi o_dphi o_sqrt self prior evs al R eta pt ch a dR js V OK P.
+  rewrite (source_perform o_cluster o_perp o_eta o_phi o_dphi o_sqrt self prior evs al R eta pt ch P). cbv zeta.
+  fold a. fold dR. rewrite (perform_content o_cluster o_perp o_eta o_phi dR a prior evs V OK). cbn [fst snd].
+  rewrite (check_params_valid a V). eexists. split; [reflexivity|].
+  intros self2. apply source_read_back.
+Qed.
+
+(* the same for EVERY argument that is dispatched to a clustering, genkt and ee_genkt (extra parameter -1) included *)
+Theorem source_roundtrip_dispatch : forall o_clusterx o_perp o_eta o_phi o_dphi o_sqrt self (prior : file) evs R eta pt ch alg n x,
+  let a := Params AntiKt R eta pt ch in
+  let cl := cluster_of o_clusterx n x in
+  let dR := dR_of o_eta o_dphi o_sqrt in
+  let js := selected_jets cl o_eta dR a evs in
+  alg <> AInt 99 -> dispatch_of alg = DCluster n x ->
+  valid a -> Forall (event_ok cl o_eta a) evs ->
+  (forall w p ev jet holes,
+     check_params a = Ok (w, p) -> In ev evs -> In jet (select cl o_eta a w p ev) ->
+     fill dR R jet Negative false ev = Ok holes -> perp_at o_perp (jet_hole_subtraction jet holes)) ->
+  exists self1,
+    genx_perform_jet_finding o_clusterx o_perp o_eta o_phi o_dphi o_sqrt self prior evs R eta pt ch alg
+    = (Some (lines_of o_perp o_eta o_phi js), XOk (self1, tt))
+    /\ forall self2, exists self3,
+         gen_read_jet_data self2 (Some (lines_of o_perp o_eta o_phi js)) = (Some (lines_of o_perp o_eta o_phi js), POk (self3, tt))
+         /\ gen_get_jets self3 = POk (map (fun jo => jet_row o_perp o_eta o_phi (jo_mom jo) (jo_event jo)) js)
+         /\ gen_get_associated_particles self3
+            = POk (map (fun jo => hadron_rows o_perp o_eta o_phi 1 (jo_assoc jo) (jo_event jo)) js).
+Proof.
+  intros o_clusterx o_perp o_eta o_phi o_dphi o_sqrt self prior evs R eta pt ch alg n x a cl dR js N99 D V OK P.
+  rewrite source_perform_dispatch; [|exact N99|].
+  - rewrite D. cbv zeta. fold a. fold cl. fold dR.
+    rewrite (perform_content cl o_perp o_eta o_phi dR a prior evs V OK). cbn [fst snd].
+    rewrite (check_params_valid a V). eexists. split; [reflexivity|].
+    intros self2. apply source_read_back.
+  - intros n' x' w p ev jet holes D'. rewrite D in D'. injection D' as <- <-. apply P.
+Qed.
+
+(* ---- non-vacuity: genkt on the concrete call of C20_source_example (fastjet's answer as a table keyed by the
+   definition: only genkt with p = -1 and R = 1 finds the 3-4-5 jet), and the three kinds of unsupported argument ---------- *)
+Definition sxx_cluster (d : xjetdef) (_ : list vec4) : list vec4 :=
+  if (xjd_alg d =? 3)%Z && Qeq_bool (xjd_R d) 1 && match xjd_extra d with Some p => Qeq_bool p (-1 # 1) | None => false end
+  then [V4 3 4 0 5] else [].
+Definition sxx_run (a : pyalg) :=
+  genx_perform_jet_finding sxx_cluster sx_perp sx_eta sx_phi sx_dphi sx_sqrt gen_new (Some [Foreign 7]) sx_events
+                           1 (Some 2, Some (-2)) (None, Some 6) true a.
+
+Theorem source_dispatch_example :
+  (forall n x w p ev jet holes,
+     dispatch_of (AInt fj_genkt_algorithm) = DCluster n x ->
+     check_params (Params AntiKt 1 (Some 2, Some (-2)) (None, Some 6) true) = Ok (w, p) -> In ev sx_events ->
+     In jet (select (cluster_of sxx_cluster n x) sx_eta (Params AntiKt 1 (Some 2, Some (-2)) (None, Some 6) true) w p ev) ->
+     fill (dR_of sx_eta sx_dphi sx_sqrt) 1 jet Negative false ev = Ok holes ->
+     perp_at sx_perp (jet_hole_subtraction jet holes))
+  /\ List.length (content (fst (sxx_run (AInt fj_genkt_algorithm)))) = 2%nat
+  /\ (exists s, snd (sxx_run (AInt fj_genkt_algorithm)) = XOk (s, tt))
+  /\ sxx_run (AInt fj_antikt_algorithm) = (Some [], snd (sxx_run (AInt fj_antikt_algorithm)))
+  /\ sxx_run (AInt fj_ee_kt_algorithm) = (Some [], XErr FastJetError)
+  /\ sxx_run (AInt 7) = (Some [], XErr FastJetError)
+  /\ sxx_run (AInt fj_undefined_jet_algorithm) = (Some [], XErr FastJetError)
+  /\ sxx_run AOther = (Some [], XErr (XPy TypeError)).
+Proof.
+  split; [|repeat split; try (vm_compute; reflexivity); vm_compute; eexists; reflexivity].
+  intros n x w p ev jet holes D CP [E|[]] IJ F. subst ev. vm_compute in D. injection D as <- <-.
+  vm_compute in CP. inversion CP; subst w p. clear CP.
+  vm_compute in IJ. destruct IJ as [E|[]]. subst jet. vm_compute in F. inversion F; subst holes.
+  split; vm_compute; [discriminate|reflexivity].
+Qed.
